@@ -13,6 +13,11 @@ def rnd_prefix(rng, interesting):
     if rng.random() < 0.3:   # ::ffff:a.b.c.d/(96+n) prefixes
         ln = 96 + rng.choice([0, 8, 24, 25, 32, rng.randrange(33)])
         base = (0xffff << 32) | rng.choice(interesting["v4"])
+        if rng.random() < 0.25:
+            # the same written with a length that cuts into (or before) the ::ffff: part: the mapped form only
+            # survives the mask from /96 on, shorter ones must behave as plain IPv6 prefixes
+            ln = rng.choice([0, 1, 48, 64, 79, 80, 81, 87, 88, 89, 94, 95, rng.randrange(96)])
+            return "6_%d/%d" % (base, ln)
     if rng.random() < 0.6:
         base &= ~(2 ** (128 - ln) - 1) & (2 ** 128 - 1)
     return "6_%d/%d" % (base, ln)
